@@ -470,11 +470,14 @@ md_describe(const struct Driver* d, struct DeviceIdentifier* id, uint64_t i)
     (void)d;
     check_touch();
     int r = answer("describe", 2, 0);
+    // (outside scripted replays, where the model dictates every answer:) a driver that describes the device it just opened as
+    // being of the other kind - a stale identifier, a re-enumeration between select and open
+    int other = (ans_src != SRC_SCRIPT && r == 0) ? answer("describe_kind", 2, 0) : 0;
     ev("{\"e\":\"Drv\",\"f\":\"describe\",\"h\":0,\"r\":%d}", r);
     if (id) {
         memset(id, 0, sizeof *id);
         id->device_id = (uint8_t)i;
-        id->kind = g_kind == K_CAM ? DeviceKind_Camera : DeviceKind_Storage;
+        id->kind = ((g_kind == K_CAM) != (other != 0)) ? DeviceKind_Camera : DeviceKind_Storage;
         snprintf(id->name, sizeof id->name, "mock %s", g_kind == K_CAM ? "camera" : "storage");
     }
     return (enum DeviceStatusCode)r;
